@@ -275,13 +275,25 @@ def run(facts, res):
             n3 += 1
             rev = arg_term(b, t, 1, 30)
             obj = arg_term(b, t, 2, 12)
-            ov = {x[1] for x in walk(obj) if x[0] in ("var", "param")}
-            ok = False
-            for x in walk(rev):
-                if x[0] == "call" and callee_name(x) == "digest_object":
-                    dv = {y[1] for y in walk(x[2][0]) if y[0] in ("var", "param")}
-                    if dv & ov:
-                        ok = True
+
+            def digest_of_obj(rev_t, obj_t):
+                ov = {(x[0], x[1]) for x in walk(obj_t) if x[0] in ("var", "param")}
+                for x in walk(rev_t):
+                    if x[0] == "call" and callee_name(x) == "digest_object":
+                        dv = {(y[0], y[1]) for y in walk(x[2][0]) if y[0] in ("var", "param")}
+                        if dv & ov:
+                            return True
+                return False
+            ok = digest_of_obj(rev, obj)
+            if not ok and b.kind != "closure" and any(x[0] == "param" for x in walk(rev)):
+                # extracted helper: digest and object arrive as parameters - check the relation at every caller
+                from ..defuse import subst
+                callers = [s_ for s_ in cg.callers_of(b.path) if s_.body.path != b.path]
+                ok = bool(callers)
+                for s_ in callers:
+                    mp = {i_ + 1: arg_term(s_.body, s_.term, i_, 24) for i_ in range(len(s_.term.args))}
+                    if not digest_of_obj(subst(rev, mp), subst(obj, mp)):
+                        ok = False
             res.instance("D3", "%s: write_object(rev, obj): rev.digest = digest_object(obj): %s" % (b.path, ok), b.loc(t.line))
             if not ok:
                 res.violation("D3", "%s|cache-key-not-digest-of-object" % b.path,
